@@ -59,15 +59,26 @@ func (p *Program) Callees(fi *FuncInfo, call *ast.CallExpr) (fns []*types.Func, 
 	}
 	// a local variable holding named functions (assigned, or ranging over a table of functions)
 	if vals := p.funcValues(fi, call.Fun, 0); len(vals) > 0 {
-		return vals, nil
+		var lits []*ast.FuncLit
+		if o := ObjOf(info, call.Fun); o != nil {
+			for _, d := range p.Locals(fi).Defs[o] {
+				if d.Kind == DefRangeVal {
+					lits = append(lits, p.litElems(fi, d.Expr, 0)...)
+				}
+			}
+		}
+		return vals, lits
 	}
-	// closure variable
+	// closure variable (assigned a function literal, or ranging over a table that contains function literals)
 	if o := ObjOf(info, call.Fun); o != nil {
 		for _, d := range p.Locals(fi).Defs[o] {
-			if d.Kind == DefAssign {
+			switch d.Kind {
+			case DefAssign:
 				if fl, ok := Unparen(d.Expr).(*ast.FuncLit); ok {
 					closures = append(closures, fl)
 				}
+			case DefRangeVal:
+				closures = append(closures, p.litElems(fi, d.Expr, 0)...)
 			}
 		}
 	}
@@ -319,4 +330,170 @@ func (p *Program) funcElems(fi *FuncInfo, e ast.Expr, depth int) []*types.Func {
 		}
 	}
 	return nil
+}
+
+// litElems: the function literals among the elements of a slice/array/map expression (a table of steps).
+func (p *Program) litElems(fi *FuncInfo, e ast.Expr, depth int) []*ast.FuncLit {
+	if depth > 4 {
+		return nil
+	}
+	info := fi.Pkg.TypesInfo
+	switch x := Unparen(e).(type) {
+	case *ast.CompositeLit:
+		var out []*ast.FuncLit
+		for _, el := range x.Elts {
+			if kv, ok := el.(*ast.KeyValueExpr); ok {
+				el = kv.Value
+			}
+			if fl, ok := Unparen(el).(*ast.FuncLit); ok {
+				out = append(out, fl)
+			}
+		}
+		return out
+	case *ast.Ident:
+		if o, ok := info.Uses[x].(*types.Var); ok {
+			var out []*ast.FuncLit
+			for _, d := range p.Locals(fi).Defs[o] {
+				if d.Kind == DefAssign {
+					out = append(out, p.litElems(fi, d.Expr, depth+1)...)
+				}
+			}
+			return out
+		}
+	}
+	return nil
+}
+
+// FuncValueExprs: the expressions (function names, method values x.m, function literals) a function-valued
+// expression may denote, in source order — through locals, range variables over table literals and tables held
+// in locals. The order is the order of the table's elements, i.e. the order in which a loop over it runs them.
+func (p *Program) FuncValueExprs(fi *FuncInfo, e ast.Expr) []ast.Expr {
+	return p.funcValueExprs(fi, e, 0, false)
+}
+
+func (p *Program) funcValueExprs(fi *FuncInfo, e ast.Expr, depth int, elems bool) []ast.Expr {
+	if depth > 5 {
+		return nil
+	}
+	info := fi.Pkg.TypesInfo
+	e = Unparen(e)
+	if elems {
+		switch x := e.(type) {
+		case *ast.CompositeLit:
+			var out []ast.Expr
+			for _, el := range x.Elts {
+				if kv, ok := el.(*ast.KeyValueExpr); ok {
+					el = kv.Value
+				}
+				out = append(out, p.funcValueExprs(fi, el, depth+1, false)...)
+			}
+			return out
+		case *ast.Ident:
+			if o, ok := info.Uses[x].(*types.Var); ok {
+				var out []ast.Expr
+				for _, d := range p.Locals(fi).Defs[o] {
+					if d.Kind == DefAssign {
+						out = append(out, p.funcValueExprs(fi, d.Expr, depth+1, true)...)
+					}
+				}
+				return out
+			}
+		}
+		return nil
+	}
+	switch x := e.(type) {
+	case *ast.FuncLit:
+		return []ast.Expr{x}
+	case *ast.Ident:
+		switch o := info.Uses[x].(type) {
+		case *types.Func:
+			return []ast.Expr{x}
+		case *types.Var:
+			var out []ast.Expr
+			for _, d := range p.Locals(fi).Defs[o] {
+				switch d.Kind {
+				case DefAssign:
+					out = append(out, p.funcValueExprs(fi, d.Expr, depth+1, false)...)
+				case DefRangeVal:
+					out = append(out, p.funcValueExprs(fi, d.Expr, depth+1, true)...)
+				}
+			}
+			return out
+		}
+	case *ast.SelectorExpr:
+		if _, ok := info.Uses[x.Sel].(*types.Func); ok {
+			return []ast.Expr{x}
+		}
+	}
+	return nil
+}
+
+// MethodValueRecv: for a call through a function value that may denote the method value recv.m with m == callee,
+// the receiver expression (nil when the call is direct or the value is not a method value of callee).
+func (p *Program) MethodValueRecv(fi *FuncInfo, call *ast.CallExpr, callee *types.Func) ast.Expr {
+	info := fi.Pkg.TypesInfo
+	if _, isSel := Unparen(call.Fun).(*ast.SelectorExpr); isSel {
+		if o, ok := info.Uses[Unparen(call.Fun).(*ast.SelectorExpr).Sel].(*types.Func); ok && o.Origin() == callee {
+			return nil
+		}
+	}
+	for _, x := range p.FuncValueExprs(fi, call.Fun) {
+		if sel, ok := x.(*ast.SelectorExpr); ok {
+			if o, ok := info.Uses[sel.Sel].(*types.Func); ok && o.Origin() == callee {
+				return sel.X
+			}
+		}
+	}
+	return nil
+}
+
+// SeqCall is one callee of a call site in execution order: calls through a table of steps are expanded to the
+// table's elements (Sub is the element index).
+type SeqCall struct {
+	Call   *ast.CallExpr
+	Callee *types.Func
+	Sub    int
+}
+
+// Before reports whether a runs before b (same function, straight-line order of the source).
+func (a SeqCall) Before(b SeqCall) bool {
+	if a.Call.Pos() != b.Call.Pos() {
+		return a.Call.Pos() < b.Call.Pos()
+	}
+	return a.Sub < b.Sub
+}
+
+// CallSequence lists the module-resolvable callees of the calls of a function body in source order, expanding
+// calls through function values into the values' elements in table order.
+func (p *Program) CallSequence(fi *FuncInfo) []SeqCall {
+	var out []SeqCall
+	info := fi.Pkg.TypesInfo
+	ast.Inspect(fi.Decl.Body, func(n ast.Node) bool {
+		call, ok := n.(*ast.CallExpr)
+		if !ok {
+			return true
+		}
+		if callee := p.StaticCallee(fi, call); callee != nil {
+			out = append(out, SeqCall{Call: call, Callee: callee})
+			return true
+		}
+		for i, x := range p.FuncValueExprs(fi, call.Fun) {
+			var id *ast.Ident
+			switch y := x.(type) {
+			case *ast.Ident:
+				id = y
+			case *ast.SelectorExpr:
+				id = y.Sel
+			}
+			if id == nil {
+				continue
+			}
+			if o, ok := info.Uses[id].(*types.Func); ok {
+				out = append(out, SeqCall{Call: call, Callee: o.Origin(), Sub: i})
+			}
+		}
+		return true
+	})
+	sort.SliceStable(out, func(i, j int) bool { return out[i].Before(out[j]) })
+	return out
 }
